@@ -1075,7 +1075,13 @@ def path_to_tree_path(
     if isinstance(path, bytes):
         path = os.fsdecode(path)
     path = Path(path)
-    resolved_path = path.resolve()
+    if path.name in ("", ".", ".."):
+        resolved_path = path.resolve()
+    else:
+        # Only the directory part is resolved. The last component names the
+        # entry itself, which may be a symlink: to another tracked file (whose
+        # path must not be returned instead), to nowhere, or to itself.
+        resolved_path = path.parent.resolve() / path.name
 
     # Resolve and abspath seems to behave differently regarding symlinks,
     # as we are doing abspath on the file path, we need to do the same on
